@@ -332,6 +332,13 @@ func simC03Sets(c *Ctx) {
 	unknowns := c.G(4) == 3
 	o := GenOpts{Null: true, Unknown: unknowns, Refine: true, Collide: true, MaxLen: 2}
 	n := 4 + c.G(20)
+	if c.G(6) == 0 {
+		// large sets: sorting and bucket code changes behaviour with size (library sorts switch algorithm
+		// above a dozen elements), and only many members make several of them unordered among themselves
+		n = 24 + c.G(30)
+		o.Unknown = true
+		c.Probe("c03.large-population")
+	}
 	for i := 0; i < n; i++ {
 		var d *VDesc
 		if i > 0 && c.G(4) == 3 {
